@@ -164,6 +164,7 @@ class _FieldIO_HDF5:
             vdims=vdims,
             unit=unit,
             valid=h5_field["valid"],
+            dtype=h5_field["array"].dtype,
         )
 
     @classmethod
@@ -182,4 +183,4 @@ class _FieldIO_HDF5:
         with contextlib.suppress(FileNotFoundError):
             mesh.load_subregions(filename)
 
-        return cls(mesh, nvdim=dim, value=array[:])
+        return cls(mesh, nvdim=dim, value=array[:], dtype=array.dtype)
